@@ -86,7 +86,7 @@ for rk, rx, inc in [("xplus_inc", b"X+", True), ("xplus_exc", b"X+", False), ("x
                     ("xplus_or_end_exc", b"X+|$", False), ("xy_exc", b"XY", False)]:
     add("s_regex_" + rk, sent("SRegex" + "".join(p.capitalize() for p in rk.split("_")),
                               [("d", Data(regex=rx, include=inc))]), 5, 6, "S", "data", "regex", "delim",
-        *(["regex_lossy"] if (not inc and rk != "xy_exc") else []))
+        *(["regex_lossy"] if (not inc and rk != "xy_exc") else []), *(["regex_nokeep"] if not inc else []))
 add("s_regex_sbl2", sent("SRegexSbl2", [("d", Data(regex=b"X+", include=True))], search_buffer_length=2), 5, 6,
     "S", "data", "regex", "delim", "sbl", "regex_ext")
 add("s_eos", Decl("SEos", [("a", Int(1)), ("d", Data(regex=b"$"))]), 4, 6, "S", "data", "eos", "delim", "readtoend")
